@@ -207,7 +207,8 @@ def evaluate():
     import concurrent.futures as cf
     import os
     ts = tasks()
-    workers = min(12, os.cpu_count() or 2)
+    from sa.core import workers as _workers
+    workers = _workers(12)
     chunks = [ts[i::workers] for i in range(workers)]
     try:
         with cf.ProcessPoolExecutor(max_workers=workers) as ex:
